@@ -261,9 +261,14 @@ package sbom
 //@   invariant L0: forall p *Node :: (p in elems(ret)) <==> ((p in elemsn(nl.Nodes, _i)) && p.Identifiers != nil && (idType in p.Identifiers) && p.Identifiers[idType] == v)
 
 //@ func NodeList.GetRootNodes
-//@   props C11
+//@   props C11, C16
 //@   inline
 //@   assigns \nothing
+//@   requires [C16:pre] validNL(nl)
+//@   ensures [C16:roots:exact] forall p *Node :: (p in elems(result)) <==> ((p in elems(nl.Nodes)) && (p.Id in elems(nl.RootElements)))
+//@   invariant L0: [C16:inv] index != nil && fresh(index) && (forall k string :: (k in index) <==> (k in elemsn(nl.RootElements, _i)))
+//@   invariant L1: [C16:inv] index != nil && (forall k string :: (k in index) <==> (k in elems(nl.RootElements)))
+//@   invariant L1: [C16:inv] forall p *Node :: (p in elems(ret)) <==> ((p in elemsn(nl.Nodes, _i)) && (p.Id in elems(nl.RootElements)))
 
 //@ func Document.GetRootNodes
 //@   props C11
